@@ -152,22 +152,9 @@ def run(repo, res):
 
     # ---- R3 messages carry no layout-derived text ------------------------------------------------------
     lint = repo.module_func('supp/linter.py', 'lint')
-    nm = 0
-    for nd in ast.walk(lint):
-        if isinstance(nd, ast.Tuple) and nd.elts and (isinstance(nd.elts[0], ast.Constant) and isinstance(nd.elts[0].value, str)
-                                                      or unparse(nd.elts[0]) == 'w') and len(nd.elts) >= 4:
-            nm += 1
-            m = nd.elts[1]
-            ok = False
-            if isinstance(m, ast.Call) and isinstance(m.func, ast.Attribute) and m.func.attr == 'format':
-                args = [unparse(a) for a in m.args]
-                ok = all(a.endswith('.id') or a.endswith('.name') for a in args)
-            elif unparse(m) == 'e.msg':
-                ok = True
-            res.check('C13-R3', 'message of %s' % unparse(nd.elts[0]), ok, 'supp/linter.py', nd.lineno,
-                      'diagnostic messages must be built from the code and the identifier only; found %s' % unparse(m),
-                      nontrivial=False)
-    res.count('diagnostic_producers', nm, floor=4)
+    from .. import api_model
+    nm = api_model.apply(res, api_model.lint_model(repo), {'message': 'C13-R3', 'producers': 'C13-R3'}, 'supp/linter.py', lint.lineno)
+    res.count('diagnostic_message_scenarios', nm, floor=12)
     res.note('get_expr_end returns the start of the last *visited* node, not of the textually last one (e.g. '
              'f(k=1, *x)); this is layout independent and therefore outside C13 (noted under C03).')
     res.assumptions.extend(['the lexicographic order of two token start positions is invariant under layout-only changes',
